@@ -1,6 +1,7 @@
 package schema
 
 import (
+	"bytes"
 	"context"
 	"encoding/json"
 	"errors"
@@ -205,11 +206,44 @@ func (d *Object) UnmarshalJSON(data []byte) error {
 	if d.payload == nil {
 		return ErrUnknownSchema
 	}
+	if err := noNullElements(data); err != nil {
+		return err
+	}
 	if err := json.Unmarshal(data, d.payload); err != nil {
 		return err
 	}
 
 	return nil
+}
+
+// noNullElements refuses a JSON text in which null is an element of an array.
+// No GOBL list has optional entries, a null entry becomes a nil pointer in the
+// parsed document, and normalisers, calculations and validators dereference
+// list entries without looking.
+func noNullElements(data []byte) error {
+	dec := json.NewDecoder(bytes.NewReader(data))
+	var inArray []bool
+	for {
+		t, err := dec.Token()
+		if err != nil {
+			return nil // end of input; anything else is for the real decoder to report
+		}
+		switch v := t.(type) {
+		case json.Delim:
+			switch v {
+			case '[':
+				inArray = append(inArray, true)
+			case '{':
+				inArray = append(inArray, false)
+			default:
+				inArray = inArray[:len(inArray)-1]
+			}
+		case nil:
+			if n := len(inArray); n > 0 && inArray[n-1] {
+				return errors.New("null is not allowed as an entry of a list")
+			}
+		}
+	}
 }
 
 // MarshalJSON satisfies the json.Marshaler interface.
